@@ -104,9 +104,8 @@ void ed_norm_sim(ed_t *r, const ed_t *t, int n) {
 #if ED_ADD == EXTND
 			fp_copy(r[i]->t, t[i]->t);
 #endif
-			if (!ed_is_infty(t[i])) {
-				fp_copy(r[i]->z, a[i]);
-			}
+			fp_copy(r[i]->z, a[i]);
+			r[i]->coord = t[i]->coord;
 		}
 
 #if ED_ADD == PROJC || ED_ADD == EXTND || !defined(STRIP)
